@@ -223,7 +223,7 @@ func (d *DFA) SearchAtAnchored(cache *DFACache, haystack []byte, at int) int {
 	// Get ANCHORED start state (requires match to start exactly at 'at')
 	currentState := d.getStartState(cache, haystack, at, true)
 	if currentState == nil {
-		return d.nfaFallback(haystack, at)
+		return d.nfaFallbackAnchored(haystack, at)
 	}
 
 	lastMatch := -1
@@ -249,22 +249,11 @@ func (d *DFA) SearchAtAnchored(cache *DFACache, haystack []byte, at int) int {
 		case InvalidState:
 			currentState = cache.getState(sid)
 			if currentState == nil {
-				return d.nfaFallback(haystack, at)
+				return d.nfaFallbackAnchored(haystack, at)
 			}
 			nextState, err := d.determinize(cache, currentState, b)
 			if err != nil {
-				if isCacheCleared(err) {
-					currentState = d.getStartState(cache, haystack, pos, true)
-					if currentState == nil {
-						return d.nfaFallback(haystack, at)
-					}
-					sid = currentState.id
-					ft = cache.flatTrans
-					ftLen = len(ft)
-					pos--
-					continue
-				}
-				return d.nfaFallback(haystack, at)
+				return d.nfaFallbackAnchored(haystack, at)
 			}
 			if nextState == nil {
 				return lastMatch
@@ -826,18 +815,6 @@ func (d *DFA) searchEarliestMatchAnchored(cache *DFACache, haystack []byte, star
 			}
 			nextState, err := d.determinize(cache, currentState, b)
 			if err != nil {
-				if isCacheCleared(err) {
-					currentState = d.getStartState(cache, haystack, pos, true)
-					if currentState == nil {
-						start, end, matched := d.pikevm.SearchAt(haystack, startPos)
-						return matched && start == startPos && end >= start
-					}
-					sid = currentState.id
-					ft = cache.flatTrans
-					ftLen = len(ft)
-					pos--
-					continue
-				}
 				start, end, matched := d.pikevm.SearchAt(haystack, startPos)
 				return matched && start == startPos && end >= start
 			}
@@ -931,16 +908,6 @@ func (d *DFA) findWithPrefilterAt(cache *DFACache, haystack []byte, startAt int)
 			}
 			nextState, err := d.determinize(cache, currentState, haystack[pos])
 			if err != nil {
-				if isCacheCleared(err) {
-					newStart := d.getStartStateForUnanchored(cache, haystack, pos)
-					if newStart == nil {
-						return d.nfaFallback(haystack, 0)
-					}
-					sid = newStart.id
-					ft = cache.flatTrans
-					ftLen = len(ft)
-					continue
-				}
 				return d.nfaFallback(haystack, 0)
 			}
 			if nextState == nil {
@@ -1009,9 +976,14 @@ func (d *DFA) findWithPrefilterAt(cache *DFACache, haystack []byte, startAt int)
 	return lastMatch
 }
 
-// isCacheCleared checks if an error from determinize() is the cache-cleared signal.
-// When true, the search loop must re-obtain the current state from the start state
-// at the current position and continue searching.
+// isCacheCleared checks if an error is the cache-cleared signal (errCacheCleared).
+//
+// determinize does not return that signal anymore: it used to make the search loops
+// re-obtain a START state at the current position and continue from there, which
+// drops every thread that is in flight (an anchored search for "abc" that clears
+// the cache after "a" went on looking for a new "abc" at offset 1; an unanchored
+// or reverse search forgot the leftmost candidate). determinize now keeps the
+// search going itself, see there.
 func isCacheCleared(err error) bool {
 	if err == nil {
 		return false
@@ -1264,10 +1236,11 @@ func (d *DFA) searchAt(cache *DFACache, haystack []byte, startPos int) int { //n
 //  5. Add transition to current state
 //
 // Returns (nil, nil) if no transition is possible (dead state).
-// Returns (nil, errCacheCleared) if cache was cleared and rebuilt.
-//
-//	The caller must re-obtain the current state from the start state
-//	at the current position and continue searching.
+// If the cache is full it is cleared and the NEW state is inserted into the
+// empty cache and returned like any other successor: the caller continues with
+// it (all callers reload the state id and the transition table after determinize).
+// Every *State and StateID obtained before the call - current included - is stale
+// then; the only thing lost is the memoised transition current --b--> new.
 //
 // Returns (nil, error) if cache is full AND max clears exceeded,
 //
@@ -1373,10 +1346,22 @@ func (d *DFA) determinize(cache *DFACache, current *State, b byte) (*State, erro
 			// Max clears exceeded - fall back to NFA
 			return nil, clearErr
 		}
-		// Cache was cleared successfully. Return errCacheCleared to signal
-		// the search loop that all state pointers are now stale and it must
-		// re-obtain the start state at the current position.
-		return nil, errCacheCleared
+		// Cache was cleared successfully: every state, `current` included, is
+		// gone from it. The threads that are in flight are exactly those of
+		// newState, so the search continues with newState, inserted into the
+		// fresh cache. (Restarting from a start state at the current position,
+		// as the loops used to do, loses them.) The transition from `current`
+		// cannot be recorded - its row does not exist anymore.
+		if existing, ok := cache.Get(key); ok {
+			// newState is the start state that tryClearCache has just rebuilt.
+			return existing, nil
+		}
+		if _, err = cache.Insert(key, newState); err != nil {
+			// Not even room for a single state after a clear: give up.
+			return nil, err
+		}
+		cache.registerState(newState)
+		return newState, nil
 	}
 
 	// Register state in ID lookup map
@@ -1535,6 +1520,17 @@ func (d *DFA) computeStartState(config StartConfig) (*State, StateKey) {
 // This is the common case for Find() operations.
 func (d *DFA) getStartStateForUnanchored(cache *DFACache, haystack []byte, pos int) *State {
 	return d.getStartState(cache, haystack, pos, false)
+}
+
+// nfaFallbackAnchored is nfaFallback for the anchored entry points: the match
+// must start exactly at startPos. (The unanchored PikeVM search would report the
+// end of a match that starts later.)
+func (d *DFA) nfaFallbackAnchored(haystack []byte, startPos int) int {
+	_, end, matched := d.pikevm.SearchAtAnchored(haystack, startPos)
+	if !matched {
+		return -1
+	}
+	return end
 }
 
 // nfaFallback executes the NFA (PikeVM) when DFA gives up.
@@ -1813,16 +1809,6 @@ func (d *DFA) SearchReverse(cache *DFACache, haystack []byte, start, end int) in
 			}
 			nextState, err := d.determinize(cache, currentState, b)
 			if err != nil {
-				if isCacheCleared(err) {
-					currentState = d.getStartStateForReverse(cache, haystack, at+1)
-					if currentState == nil {
-						return d.nfaFallbackReverse(haystack, start, end)
-					}
-					sid = currentState.id
-					ft = cache.flatTrans
-					ftLen = len(ft)
-					continue
-				}
 				return d.nfaFallbackReverse(haystack, start, end)
 			}
 			if nextState == nil {
@@ -1929,17 +1915,6 @@ func (d *DFA) SearchReverseLimited(cache *DFACache, haystack []byte, start, end,
 			}
 			nextState, err := d.determinize(cache, currentState, b)
 			if err != nil {
-				if isCacheCleared(err) {
-					currentState = d.getStartStateForReverse(cache, haystack, at+1)
-					if currentState == nil {
-						return d.nfaFallbackReverse(haystack, start, end)
-					}
-					sid = currentState.id
-					ft = cache.flatTrans
-					ftLen = len(ft)
-					at++ // Will be decremented by for-loop
-					continue
-				}
 				return d.nfaFallbackReverse(haystack, start, end)
 			}
 			if nextState == nil {
@@ -2022,18 +1997,6 @@ func (d *DFA) IsMatchReverse(cache *DFACache, haystack []byte, start, end int) b
 			}
 			nextState, err := d.determinize(cache, currentState, b)
 			if err != nil {
-				if isCacheCleared(err) {
-					currentState = d.getStartStateForReverse(cache, haystack, at+1)
-					if currentState == nil {
-						_, _, matched := d.pikevm.Search(haystack[start:end])
-						return matched
-					}
-					sid = currentState.id
-					ft = cache.flatTrans
-					ftLen = len(ft)
-					at++ // Will be decremented by for-loop
-					continue
-				}
 				_, _, matched := d.pikevm.Search(haystack[start:end])
 				return matched
 			}
